@@ -21,7 +21,7 @@ counters as `max_err_over_tol_permille`).
 
 Signatures
   construct:<algo>:dense-mismatch / :exception:<Type> / :shape     -- any failure of construction
-  construct:real-factors:complex-local-matrix:UFuncTypeError       -- D12 (dtype taken from factors)
+  mpo-dtype:real-factor-complex-matrix:UFuncTypeError       -- D12 (dtype taken from factors)
   swap:<qr|graph>:dense-mismatch, swap:<..>:exception:<Type>, swap:failed-swap-corrupts-operator
   Defects of the pinned tree found by this search (each reproduced by hand, see the final report):
   swap:single-term-operator:AttributeError
@@ -241,7 +241,7 @@ def run_construct(run, case, stats):
             continue
         if status in ("exception:UFuncTypeError", "exception:_UFuncOutputCastingError") and d12_class:
             run.count("D12:hit")
-            run.violation("construct:real-factors:complex-local-matrix:UFuncTypeError", rep)
+            run.violation("mpo-dtype:real-factor-complex-matrix:UFuncTypeError", rep)
             continue
         if status == "mismatch":
             small = shrink_terms(terms, lambda ts: check_construct(bs, ts, offset, algo, case["qn_size"], case["via"])[0] == "mismatch")
